@@ -183,6 +183,11 @@ fn scn_configs(o: &Opts, tr: &mut Tr, prop: &str) {
                     };
                     let id = format!("cfg-{}-l{}-{}-w{}", if zl { "z" } else { "r" }, lvl, STRATS[st].0, wb);
                     stream_comp_case(tr, &id, prop, &data, &cfg, &big_out_sched(), &mut r, "planted");
+                    if zl && n % 3 == 0 {
+                        // the same configuration on an object that already compressed a stream and was reset
+                        let cfg2 = Cfg { zlib: zl, level: lvl, strat: st, wbits: wb, api: "params_reused" };
+                        stream_comp_case(tr, &format!("{}-reused", id), prop, &data, &cfg2, &big_out_sched(), &mut r, "planted");
+                    }
                 }
             }
         }
@@ -276,6 +281,7 @@ fn main() {
         "bound" => capi::scn_bound(&o, &mut tr, "C15"),
         "reset" => reset::scn_reset(&o, &mut tr, "C18"),
         "snapshots" => reset::scn_snapshots(&o, &mut tr, "C19"),
+        "adler_stream" => scn_adler_stream(&o, &mut tr, "C16"),
         "checksums" => cks::scn_checksums(&o, &mut tr, "C16"),
         "genstreams" => scn_dec::scn_genstreams(&o, &mut tr, "C03"),
         "genstreams_c04" => scn_dec::scn_genstreams(&o, &mut tr, "C04"),
@@ -388,6 +394,22 @@ fn scn_streamcomp(o: &Opts, tr: &mut Tr, prop: &str) {
         let sch = Sched { chunk_pat: "rand".into(), outs: vec![1000, 85195, 85196, 100000, 7], flush_pct: 5,
                           flush_set: vec![2, 3, 7], callback: bi % 3 == 2, max_points: 0 };
         stream_comp_case(tr, &format!("scbig-{}-{}-l{}", kind, size, lvl), prop, &data, &cfg, &sch, &mut r, kind);
+    }
+}
+
+/// C16: the compressor's running checksum under suspended calls (big input slices, small
+/// output buffers: a call consumes only a prefix of what it was offered).
+fn scn_adler_stream(o: &Opts, tr: &mut Tr, prop: &str) {
+    let mut r = gen::rng(o.seed, 1616);
+    let n = if o.thorough { 40 } else { 10 };
+    for i in 0..n {
+        let kind = ["rand", "text", "zeros", "mixed", "litmatch"][i % 5];
+        let size = [70_000usize, 140_000, 40_000, 100_000][i % 4];
+        let data = gen::data(kind, size, &mut r);
+        let cfg = Cfg { zlib: true, level: [0u8, 1, 6, 9][i % 4], strat: 0, wbits: 15, api: "params" };
+        let sch = Sched { chunk_pat: ["all", "fixed50000", "rand"][i % 3].into(), outs: [vec![1000], vec![128, 4096], vec![30000]][i % 3].clone(),
+                          flush_pct: [0, 5][i % 2], flush_set: vec![2, 3], callback: false, max_points: 0 };
+        stream_comp_case(tr, &format!("adl-{}-{}-{}", i, kind, size), prop, &data, &cfg, &sch, &mut r, kind);
     }
 }
 
